@@ -67,6 +67,62 @@ func (v *SpecView) Section(unit, label string) (*Labeled, error) {
 	return nil, fmt.Errorf("no label %s in %s", label, unit)
 }
 
+// Labels lists the labels (critical sections) of a unit after normalisation.
+func (v *SpecView) Labels(unit string) ([]string, error) {
+	if _, err := v.Section(unit, "\x00"); err != nil && v.errs[unit] != nil {
+		return nil, v.errs[unit]
+	}
+	if v.Unit(unit) == nil {
+		return nil, fmt.Errorf("no archetype or procedure %s", unit)
+	}
+	var out []string
+	for _, s := range v.secs[unit] {
+		out = append(out, s.Label)
+	}
+	return out, nil
+}
+
+// LabelGraph maps every label of a unit to the labels its section can hand over to (its goto targets).
+func (v *SpecView) LabelGraph(unit string) (map[string][]string, error) {
+	if _, err := v.Labels(unit); err != nil {
+		return nil, err
+	}
+	out := map[string][]string{}
+	for _, s := range v.secs[unit] {
+		set := map[string]bool{}
+		var walk func(ss []Stmt)
+		walk = func(ss []Stmt) {
+			for _, st := range ss {
+				switch x := st.(type) {
+				case *Goto:
+					set[x.Target] = true
+				case *If:
+					walk(x.Then)
+					walk(x.Else)
+				case *Either:
+					for _, cs := range x.Cases {
+						walk(cs)
+					}
+				case *While:
+					walk(x.Body)
+				case *With:
+					walk(x.Body)
+				case *Labeled:
+					walk(x.Body)
+				}
+			}
+		}
+		walk(s.Body)
+		ts := []string{}
+		for t := range set {
+			ts = append(ts, t)
+		}
+		sort.Strings(ts)
+		out[s.Label] = ts
+	}
+	return out, nil
+}
+
 // OpDef returns the operator definition of that name.
 func (v *SpecView) OpDef(name string) *OpDef {
 	for i := range v.Spec.Defs {
